@@ -3,7 +3,10 @@ import datetime
 import re
 from vlib import *
 
+EXTRA_MODULES = ["C15text"]
 THEOREMS = [
+    "C15_text_roundtrip", "C15_text_roundtrip_cfg", "C15_text_valid_literal", "C15_text_spec_accepts", "C15_text_grammar",
+    "C15_text_nano_zero_digits", "C15_text_ex_wf4", "C15_text_ex_wf5", "C15_text_ex_strings",
     "C15_days_civil_inverse", "C15_civil_days_inverse", "C15_civil_valid", "C15_date_fields", "C15_wf_year",
     "C15_binary_roundtrip",
     "C15_binary_reject_patched", "C15_binary_reject_refuted", "C15_binary_minute60_witness",
